@@ -507,7 +507,7 @@ PROPS.update({
         theorems=[('DeriveExModel.Props.Tables', ['DX.isMatch_table_model', 'DX.isMatch_table_doc', 'DX.isMatch_table_complete']), ('DeriveExModel.Props.DocTables', ['DX.doc_attr_trait_table', 'DX.doc_attr_trait_complete', 'DX.doc_affects_table']), (CMP + 'C14', ['DX.isMatch_extend', 'DX.reemit_exact_struct', 'DX.reemit_exact_enum',
                                  'DX.reemit_on_arg_error_struct', 'DX.reemit_on_arg_error_enum', 'DX.reemit_impl',
                                  'DX.reemit_other', 'DX.item_always_emitted', 'DX.foreign_kept', 'DX.strip_is_sublist',
-                                 'DX.underived_helper_kept'])],
+                                 'DX.underived_helper_kept', 'DX.fromRoot_foreign', 'DX.fromAttrs_foreign'])],
         l1=[('strip', 5000, 200000), ('wild', 2000, 50000), ('impl', 1500, 30000), ('other', 500, 5000), ('cmp1all', 10000, 'all')],
         labels=r'^item$',
         l1_is_concrete=('tokens', 'class'),
